@@ -693,6 +693,51 @@ func ruleWKTTable(r *Run) {
 	}
 }
 
+// inspectDeep is ast.Inspect over n and, transitively (depth 3), over the bodies of the larking-package
+// functions and methods called from it, each visited once.
+func (p *Program) inspectDeep(n ast.Node, f func(ast.Node) bool) {
+	seen := map[*ast.FuncDecl]bool{}
+	var visit func(n ast.Node, depth int)
+	visit = func(n ast.Node, depth int) {
+		ast.Inspect(n, func(x ast.Node) bool {
+			if x == nil {
+				return true
+			}
+			if !f(x) {
+				return false
+			}
+			call, ok := x.(*ast.CallExpr)
+			if !ok || depth >= 3 {
+				return true
+			}
+			var id *ast.Ident
+			switch fun := call.Fun.(type) {
+			case *ast.Ident:
+				id = fun
+			case *ast.SelectorExpr:
+				id = fun.Sel
+			}
+			if id == nil {
+				return true
+			}
+			fobj, ok := p.Lark.TypesInfo.Uses[id].(*types.Func)
+			if !ok || fobj.Pkg() != p.Lark.Types {
+				return true
+			}
+			for _, file := range p.Lark.Syntax {
+				for _, d := range file.Decls {
+					if fd, ok := d.(*ast.FuncDecl); ok && fd.Body != nil && p.Lark.TypesInfo.Defs[fd.Name] == types.Object(fobj) && !seen[fd] {
+						seen[fd] = true
+						visit(fd.Body, depth+1)
+					}
+				}
+			}
+			return true
+		})
+	}
+	visit(n, 0)
+}
+
 func ruleBytesAlphabets(r *Run) {
 	p := r.P
 	_, sw := p.kindSwitch()
@@ -715,7 +760,8 @@ func ruleBytesAlphabets(r *Run) {
 		}
 		uses := map[string]bool{}
 		for _, st := range cc.Body {
-			ast.Inspect(st, func(n ast.Node) bool {
+			// the arm's statements and the bodies of the module functions they call (the decoding may be a helper)
+			p.inspectDeep(st, func(n ast.Node) bool {
 				id, ok := n.(*ast.Ident)
 				if !ok {
 					return true
